@@ -29,7 +29,7 @@ func vhIsKeyNotFound(err error) bool {
 
 //vh:prop C02 C05 C09 C06 C03
 //vh:param leaves 2 3
-//vh:param perleaf 3 4
+//vh:param perleaf 3 3
 //vh:param symT 0 1
 func VH_C02_MapStep() {
 	vhThreshold()
